@@ -27,6 +27,8 @@ import (
 	"github.com/33cn/chain33/rpc"
 	_ "github.com/33cn/chain33/system"
 	"github.com/33cn/chain33/types"
+	gethrpc "github.com/ethereum/go-ethereum/rpc"
+	"github.com/gorilla/websocket"
 	"google.golang.org/grpc"
 	"google.golang.org/grpc/credentials/insecure"
 	"google.golang.org/grpc/test/bufconn"
@@ -686,6 +688,8 @@ type world struct {
 	r     *rpc.RPC
 	jh    http.Handler
 	eh    http.Handler
+	ewsh  http.Handler // the Ethereum-compatible websocket endpoint object
+	wsl   *simListener
 	lis   *simListener
 	conns map[string]*grpc.ClientConn
 	id    int
@@ -751,6 +755,14 @@ func (w *world) run() *simrt.Violation {
 	if w.eh == nil {
 		simrt.Failf("rpcsim: no ethrpc handler")
 	}
+	w.ewsh = r.VerifEthWSHandler()
+	if w.ewsh == nil {
+		simrt.Failf("rpcsim: no ethrpc websocket handler")
+	}
+	w.wsl = &simListener{Listener: bufconn.Listen(1 << 16)}
+	wsSrv := &http.Server{Handler: w.ewsh, ReadHeaderTimeout: 5 * time.Second}
+	go func() { _ = wsSrv.Serve(w.wsl) }()
+	defer wsSrv.Close()
 	w.lis = &simListener{Listener: bufconn.Listen(1 << 16)}
 	go func() { _ = r.GRPC().Serve(w.lis) }()
 	defer func() {
@@ -881,6 +893,11 @@ func (w *world) run() *simrt.Violation {
 				}
 				return ctx.Violate("ethrpc-whitelist-differs", keys+"/"+dir+"/"+fam,
 					"client %s: ethrpc admits=%v but %s admits=%v; config: whitelist=%q whitlist=%q", h, eth, name, other, a.wl, a.wl2)
+			}
+			// the websocket endpoint of the same server admits the same clients
+			ctx.Probe("ws_admission_compared")
+			if v := cmp("eth-websocket", w.doEthWS(addr, "web3_clientVersion")); v != nil {
+				return v
 			}
 			if jm != "" {
 				body := []byte(fmt.Sprintf(`{"jsonrpc":"2.0","method":"Chain33.%s","params":[{}],"id":1}`, jm))
@@ -1054,6 +1071,29 @@ func (w *world) doGRPC(op *simrt.Op) ([]string, string) {
 		shape = "gzip"
 	}
 	return w.invokeGRPC(op.Str(1), op.Str(2), op.Int(0) == 1), shape
+}
+
+// doEthWS opens a real websocket connection to the Ethereum-compatible websocket
+// endpoint object as a client whose peer address is addr and calls one method.
+func (w *world) doEthWS(addr, method string) bool {
+	d := websocket.Dialer{HandshakeTimeout: 5 * time.Second, NetDialContext: func(ctx context.Context, _, _ string) (net.Conn, error) {
+		w.wsl.mu.Lock()
+		w.wsl.next = append(w.wsl.next, strAddr(addr))
+		w.wsl.mu.Unlock()
+		return w.wsl.Listener.DialContext(ctx)
+	}}
+	ctx, cancel := context.WithTimeout(context.Background(), 10*time.Second)
+	defer cancel()
+	c, err := gethrpc.DialOptions(ctx, "ws://node.example", gethrpc.WithWebsocketDialer(d))
+	if err != nil {
+		return false // the upgrade was refused
+	}
+	defer c.Close()
+	var out string
+	if err := c.CallContext(ctx, &out, method); err != nil {
+		return false
+	}
+	return out != ""
 }
 
 func (w *world) doEth(addr, method string, ws bool) []string {
